@@ -108,16 +108,17 @@ Proof. unfold print_ltails. rewrite map_app, concat_app. reflexivity. Qed.
 Lemma print_ltails_cons x xs : print_ltails (x :: xs) = print_ltail x ++ print_ltails xs.
 Proof. reflexivity. Qed.
 
-Definition blanks (n : nat) : list ltail := repeat (O, None) n.
+Definition blanks (ns : list nat) : list ltail := map (fun n => (n, None)) ns.
 
-Lemma print_blanks n : print_ltails (blanks n) = nls n.
+Lemma print_blanks ns : print_ltails (blanks ns) = bl ns.
 Proof.
-  induction n as [|n IH]; [reflexivity|]. cbn [blanks repeat]. rewrite print_ltails_cons.
-  fold (blanks n). rewrite IH. reflexivity.
+  induction ns as [|n ns IH]; [reflexivity|]. cbn [blanks map]. rewrite print_ltails_cons.
+  fold (blanks ns). rewrite IH, bl_cons. unfold print_ltail. cbn [fst snd print_comment app].
+  rewrite <- app_assoc. reflexivity.
 Qed.
 
-Lemma wf_blanks n : forallb wf_ltail (blanks n) = true.
-Proof. induction n; [reflexivity|]. cbn [blanks repeat forallb]. exact IHn. Qed.
+Lemma wf_blanks ns : forallb wf_ltail (blanks ns) = true.
+Proof. induction ns as [|n ns IH]; [reflexivity|]. cbn [blanks map forallb]. exact IH. Qed.
 
 Lemma print_ltails_ends_lf xs : xs <> [] -> exists a, print_ltails xs = a ++ [10].
 Proof.
@@ -138,20 +139,28 @@ Definition key_spec (k : key) : Prop :=
       key_scan s c = Ok (after s (print_key k ++ sp j), key_meaning k).
 
 (* the text of a value after the spaces that follow ':', up to the end of the item *)
-Definition value_text (v : value) (trail : nat) : str :=
+Definition value_text (v : value) (trail : list nat) : str :=
   match v with
-  | VNone tsp cm => sp tsp ++ print_comment cm ++ [10] ++ nls trail
-  | VFlow _ f tsp cm => print_flow f ++ sp tsp ++ print_comment cm ++ [10] ++ nls trail
+  | VNone tsp cm => sp tsp ++ print_comment cm ++ [10] ++ bl trail
+  | VFlow _ f tsp cm => print_flow f ++ sp tsp ++ print_comment cm ++ [10] ++ bl trail
   | VBlock _ folded h lead indent first more =>
-      print_header folded h indent ++ nls lead ++ sp indent ++ first ++ [10] ++
-      concat (map (fun '(k, t) => nls k ++ sp indent ++ t ++ [10]) more) ++ nls trail
+      print_header folded h indent ++ bl lead ++ sp indent ++ first ++ [10] ++
+      concat (map (fun '(ks, t) => bl ks ++ sp indent ++ t ++ [10]) more) ++ bl trail
+  end.
+
+(* values whose scanning reads on into the indentation of the following line *)
+Definition eats_value (v : value) : bool :=
+  match v with
+  | VFlow _ (FPlain _ _) _ None => true
+  | VBlock _ _ _ _ _ _ _ => true
+  | _ => false
   end.
 
 (* scanning a value that starts after column 0: some prefix of the item's remaining text is
    consumed, what is left are line tails (white space, comment, line feed) *)
-Definition value_spec (v : value) (trail : nat) : Prop :=
+Definition value_spec (v : value) (trail : list nat) : Prop :=
   exists c r, value_text v trail = c :: r /\ stopc c /\
-  forall s c0 t0, s_col s <> 0 -> item_start c0 ->
+  forall s c0 t0, s_col s <> 0 -> (eats_value v = true -> item_start c0) ->
     s_rest s = value_text v trail ++ c0 :: t0 ->
     exists consumed xs,
       value_text v trail = consumed ++ print_ltails xs /\ forallb wf_ltail xs = true /\
@@ -160,16 +169,16 @@ Definition value_spec (v : value) (trail : nat) : Prop :=
 
 (* ------------------------------------------------------------------ items *)
 
-Definition is_comment (it : item) : bool := match it with IComment _ _ => true | _ => false end.
+Definition is_comment (it : item) : bool := match it with IComment _ _ _ => true | _ => false end.
 
 Definition ltails_of_comment (it : item) : list ltail :=
-  match it with IComment t trail => (O, Some t) :: blanks trail | _ => [] end.
+  match it with IComment n t trail => (n, Some t) :: blanks trail | _ => [] end.
 
-Lemma print_comment_item t trail :
-  print_item (IComment t trail) = print_ltails (ltails_of_comment (IComment t trail)).
+Lemma print_comment_item n t trail :
+  print_item (IComment n t trail) = print_ltails (ltails_of_comment (IComment n t trail)).
 Proof.
   cbn [print_item ltails_of_comment]. rewrite print_ltails_cons, print_blanks.
-  unfold print_ltail. cbn [fst snd sp repeat print_comment app]. rewrite <- app_assoc. reflexivity.
+  unfold print_ltail. cbn [fst snd print_comment]. rewrite <- !app_assoc. reflexivity.
 Qed.
 
 Definition print_items (items : list item) : str := concat (map print_item items).
@@ -177,46 +186,63 @@ Definition print_items (items : list item) : str := concat (map print_item items
 Fixpoint meaning_items (items : list item) : list (str * str) :=
   match items with
   | [] => []
-  | IComment _ _ :: r => meaning_items r
+  | IComment _ _ _ :: r => meaning_items r
   | IKV k _ v trail :: r => (key_meaning k, value_meaning v trail) :: meaning_items r
   end.
 
 Lemma meaning_block_items b : meaning_block b = meaning_items (b_items b).
 Proof.
-  unfold meaning_block. induction (b_items b) as [|[t tr|k ksp v tr] r IH]; cbn [flat_map meaning_items app]; congruence.
+  unfold meaning_block. induction (b_items b) as [|[n t tr|k ksp v tr] r IH]; cbn [flat_map meaning_items app]; congruence.
 Qed.
 
 (* an item that the proofs cover: its key and value satisfy the scanning specs *)
 Definition item_ok (it : item) : Prop :=
   match it with
-  | IComment _ _ => True
+  | IComment _ _ _ => True
   | IKV k _ v trail => key_spec k /\ (match v with VNone _ _ => True | _ => value_spec v trail end)
   end.
 
+Definition starts_icomment (items : list item) : Prop :=
+  match items with IComment (S _) _ _ :: _ => True | _ => False end.
+
 Lemma items_start items : forallb wf_item items = true ->
-  exists c t, print_items items ++ [0] = c :: t /\ item_start c.
+  exists c t, print_items items ++ [0] = c :: t /\
+              (item_start c \/ (c = 32 /\ starts_icomment items)).
 Proof.
-  destruct items as [|[tx tr|k ksp v tr] r]; intros Hwf.
-  - exists 0, []. split; [reflexivity | right; left; reflexivity].
-  - unfold print_items. cbn [map concat print_item app]. eexists; eexists. split; [reflexivity | left; reflexivity].
+  destruct items as [|[n tx tr|k ksp v tr] r]; intros Hwf.
+  - exists 0, []. split; [reflexivity | left; right; left; reflexivity].
+  - unfold print_items. cbn [map concat print_item]. destruct n as [|n].
+    + cbn [sp repeat app]. eexists; eexists. split; [reflexivity | left; left; reflexivity].
+    + rewrite sp_S. cbn [app]. eexists; eexists. split; [reflexivity | right; split; [reflexivity | exact I]].
   - cbn [forallb wf_item] in Hwf. apply andb_true_iff in Hwf as [Hk _]. apply andb_true_iff in Hk as [Hk _].
+    apply andb_true_iff in Hk as [Hk _].
     unfold print_items. cbn [map concat print_item].
     destruct k as [l|tx|tx]; cbn [print_key wf_key] in *.
     + apply andb_true_iff in Hk as [Hk _]. unfold wf_pline_start in Hk. apply andb_true_iff in Hk as [Hp Hi].
       unfold wf_pline in Hp. apply andb_true_iff in Hp as [Hw _].
       destruct (wf_word_inv _ Hw) as (c & w' & Ew & Hc & _).
       unfold print_pline. rewrite Ew. cbn [app]. eexists; eexists. split; [reflexivity|].
-      right; right; right; right. split; [assumption|].
+      left. right; right; right; right. split; [assumption|].
       rewrite Ew in Hi. cbn [first_is] in Hi. apply negb_true_iff in Hi. exact Hi.
-    + cbn [app]. eexists; eexists. split; [reflexivity | right; right; left; reflexivity].
-    + cbn [app]. eexists; eexists. split; [reflexivity | right; right; right; left; reflexivity].
+    + cbn [app]. eexists; eexists. split; [reflexivity | left; right; right; left; reflexivity].
+    + cbn [app]. eexists; eexists. split; [reflexivity | left; right; right; right; left; reflexivity].
+Qed.
+
+Lemma wf_adj_tail it r : wf_adj (it :: r) = true -> wf_adj r = true.
+Proof. cbn [wf_adj]. intros H. apply andb_true_iff in H. tauto. Qed.
+
+Lemma wf_adj_follow it r : wf_adj (it :: r) = true -> eats_indent it = true -> ~ starts_icomment r.
+Proof.
+  cbn [wf_adj]. intros H He Hs. apply andb_true_iff in H as [H _]. rewrite He in H.
+  destruct r as [|[[|n] tx tr|k ksp v tr] r']; cbn [starts_icomment] in Hs; try contradiction.
+  discriminate.
 Qed.
 
 (* leading comment items are line tails *)
 Fixpoint lead_comments (items : list item) : list ltail * list item :=
   match items with
-  | IComment t trail :: r =>
-      let '(xs, r') := lead_comments r in (((O, Some t) :: blanks trail) ++ xs, r')
+  | IComment n t trail :: r =>
+      let '(xs, r') := lead_comments r in (((n, Some t) :: blanks trail) ++ xs, r')
   | _ => ([], items)
   end.
 
@@ -225,9 +251,9 @@ Lemma lead_comments_spec items : forallb wf_item items = true ->
   print_items items = print_ltails xs ++ print_items r /\ forallb wf_ltail xs = true /\
   forallb wf_item r = true /\ meaning_items items = meaning_items r /\
   (length r <= length items)%nat /\
-  match r with IComment _ _ :: _ => False | _ => True end.
+  match r with IComment _ _ _ :: _ => False | _ => True end.
 Proof.
-  induction items as [|[tx tr|k ksp v tr] r IH]; intros Hwf.
+  induction items as [|[n tx tr|k ksp v tr] r IH]; intros Hwf.
   - cbn. repeat split; auto.
   - cbn [forallb] in Hwf. apply andb_true_iff in Hwf as [Hw1 Hw2]. specialize (IH Hw2).
     cbn [lead_comments]. destruct (lead_comments r) as [xs r'].
@@ -242,9 +268,17 @@ Qed.
 
 Lemma lead_comments_ok items : Forall item_ok items -> Forall item_ok (snd (lead_comments items)).
 Proof.
-  induction items as [|[tx tr|k ksp v tr] items IH]; intros H; cbn [lead_comments].
+  induction items as [|[n tx tr|k ksp v tr] items IH]; intros H; cbn [lead_comments].
   - exact H.
   - inversion H; subst. destruct (lead_comments items) as [a b]. cbn [snd] in *. auto.
+  - exact H.
+Qed.
+
+Lemma lead_comments_adj items : wf_adj items = true -> wf_adj (snd (lead_comments items)) = true.
+Proof.
+  induction items as [|[n tx tr|k ksp v tr] items IH]; intros H; cbn [lead_comments].
+  - exact H.
+  - apply wf_adj_tail in H. destruct (lead_comments items) as [a b]. cbn [snd] in *. auto.
   - exact H.
 Qed.
 
@@ -253,7 +287,7 @@ Qed.
 Definition value_vsp (v : value) : nat :=
   match v with VNone _ _ => O | VFlow vsp _ _ _ => vsp | VBlock vsp _ _ _ _ _ _ => vsp end.
 
-Lemma print_value_text v trail : print_value v ++ nls trail = sp (value_vsp v) ++ value_text v trail.
+Lemma print_value_text v trail : print_value v ++ bl trail = sp (value_vsp v) ++ value_text v trail.
 Proof.
   destruct v as [tsp cm|vsp f tsp cm|vsp folded h lead indent first more];
     cbn [print_value value_vsp value_text sp repeat app]; rewrite <- ?app_assoc; reflexivity.
@@ -289,7 +323,7 @@ Lemma colon_stopc : stopc 58. Proof. unfold stopc, lbc. repeat split; try discri
 Ltac value_case :=
   match goal with
   | Hvs : value_spec ?v ?trail, Hrs4 : s_rest ?s4 = sp (value_vsp ?v) ++ _ ++ ?c0 :: ?t0,
-    Hwv : wf_value ?v = true, Hc0 : item_start ?c0 |- _ =>
+    Hwv : wf_value ?v = true, Hc0 : _ -> item_start ?c0 |- _ =>
       let cv := fresh "cv" in let rv := fresh "rv" in let Ev := fresh "Ev" in
       let Hcv := fresh "Hcv" in let Hscan := fresh "Hscan" in
       destruct Hvs as (cv & rv & Ev & Hcv & Hscan);
@@ -326,6 +360,7 @@ Ltac value_case_end IH r' f n HREST :=
       [ cbn [length] in *; lia
       | assumption
       | assumption
+      | assumption
       | split; [|split; assumption];
         apply rest_after; rewrite Hrs5, Esplit, <- HREST, <- !app_assoc; reflexivity
       | cbn [length] in *; lia
@@ -334,11 +369,11 @@ Ltac value_case_end IH r' f n HREST :=
   end.
 
 Lemma tokenize_f_spec : forall n items, (length items <= n)%nat -> forall fuel s xs,
-  forallb wf_item items = true -> Forall item_ok items -> tok_inv s xs items ->
+  forallb wf_item items = true -> wf_adj items = true -> Forall item_ok items -> tok_inv s xs items ->
   (length items < fuel)%nat ->
   exists toks, tokenize_f fuel s = (toks, None) /\ tok_shape toks (meaning_items items).
 Proof.
-  induction n as [|n IH]; intros items Hn fuel s xs Hwf Hok [Hr [Hxs Hcol]] Hf;
+  induction n as [|n IH]; intros items Hn fuel s xs Hwf Hadj Hok [Hr [Hxs Hcol]] Hf;
     (destruct fuel as [|f]; [lia|]); cbn [tokenize_f].
   - (* no item left *)
     destruct items; [|cbn [length] in Hn; lia].
@@ -348,7 +383,8 @@ Proof.
     rewrite (tok_iter_end s _ 0 H1); [| eapply peek_after; rewrite <- app_assoc; exact Hr' | reflexivity].
     exists []. split; [reflexivity | constructor].
   - pose proof (lead_comments_spec items Hwf) as HL. pose proof (lead_comments_ok items Hok) as Hokr.
-    destruct (lead_comments items) as [cx r]. cbn [snd] in Hokr.
+    pose proof (lead_comments_adj items Hadj) as Hadjr.
+    destruct (lead_comments items) as [cx r]. cbn [snd] in Hokr, Hadjr.
     destruct HL as (HL1 & HL2 & HL3 & HL4 & HL5 & HL6).
     assert (Hr1 : s_rest s = print_ltails (xs ++ cx) ++ print_items r ++ [0]).
     { rewrite Hr, HL1, print_ltails_app, <- !app_assoc. reflexivity. }
@@ -356,7 +392,7 @@ Proof.
     assert (Hcol1 : xs ++ cx = [] -> s_col s = 0).
     { intros E. apply app_eq_nil in E as [E _]. auto. }
     rewrite HL4. clear Hr Hxs Hcol HL1. set (ys := xs ++ cx) in *. clearbody ys. clear xs cx HL2.
-    destruct r as [|[tx tr|k ksp v trail] r']; [| contradiction |].
+    destruct r as [|[n0 tx tr|k ksp v trail] r']; [| contradiction |].
     + (* only comments and blank lines are left *)
       unfold print_items in Hr1. cbn [map concat app] in Hr1.
       assert (Hr' : s_rest s = print_ltails ys ++ sp 0 ++ 0 :: []) by exact Hr1.
@@ -365,10 +401,14 @@ Proof.
       exists []. split; [reflexivity | constructor].
     + (* a key/value item *)
       cbn [forallb wf_item] in HL3. apply andb_true_iff in HL3 as [Hkv Hwf'].
-      apply andb_true_iff in Hkv as [Hwk Hwv].
+      apply andb_true_iff in Hkv as [Hkv Hwtr]. apply andb_true_iff in Hkv as [Hwk Hwv].
       inversion Hokr as [|? ? Hio Hok']; subst. cbn [item_ok] in Hio. destruct Hio as [Hks Hvs].
       destruct Hks as (c & rk & Ek & Hkc & Hkscan).
-      destruct (items_start r' Hwf') as (c0 & t0 & HREST & Hc0).
+      pose proof (wf_adj_tail _ _ Hadjr) as Hadj'.
+      destruct (items_start r' Hwf') as (c0 & t0 & HREST & Hc0').
+      assert (Hc0 : eats_value v = true -> item_start c0).
+      { intros He. destruct Hc0' as [Hc0'|[_ Hsc]]; [exact Hc0'|].
+        exfalso. apply (wf_adj_follow _ _ Hadjr); [exact He | exact Hsc]. }
       unfold print_items in Hr1. cbn [map concat print_item] in Hr1. fold (print_items r') in Hr1.
       destruct (value_first v trail (c0 :: t0) Hwv) as (x & tx & Ex & Hx).
       (* the text from the key on *)
@@ -401,14 +441,16 @@ Proof.
       destruct v as [tsp cm|vsp fl tsp cm|vsp folded h lead indent first more].
       * (* key only: everything up to the next key is skipped *)
         pose proof (lead_comments_spec r' Hwf') as HL'. pose proof (lead_comments_ok r' Hok') as Hok''.
-        destruct (lead_comments r') as [cx' r'']. cbn [snd] in Hok''.
+        pose proof (lead_comments_adj r' Hadj') as Hadj''.
+        destruct (lead_comments r') as [cx' r'']. cbn [snd] in Hok'', Hadj''.
         destruct HL' as (HM1 & HM2 & HM3 & HM4 & HM5 & HM6).
         destruct (items_start r'' HM3) as (c1 & t1 & HREST1 & Hc1).
         assert (Hc1s : stopc c1).
-        { destruct Hc1 as [E|[E|E]]; [|subst; apply nul_stopc | apply key_start_stopc; assumption].
-          subst c1. destruct r'' as [|[tx1 tr1|k1 ksp1 v1 trail1] r3]; [discriminate | contradiction |].
+        { destruct Hc1 as [[E|[E|E]]|[_ Hsc]]; [|subst; apply nul_stopc | apply key_start_stopc; assumption |].
+          2:{ exfalso. destruct r'' as [|[[|n1] tx1 tr1|k1 ksp1 v1 trail1] r3]; cbn [starts_icomment] in Hsc; contradiction. }
+          subst c1. destruct r'' as [|[n1 tx1 tr1|k1 ksp1 v1 trail1] r3]; [discriminate | contradiction |].
           exfalso. clear - HREST1 HM3. cbn [forallb wf_item] in HM3.
-          apply andb_true_iff in HM3 as [H _]. apply andb_true_iff in H as [H _].
+          apply andb_true_iff in HM3 as [H _]. apply andb_true_iff in H as [H _]. apply andb_true_iff in H as [H _].
           unfold print_items in HREST1. cbn [map concat print_item] in HREST1.
           destruct k1 as [l|txx|txx]; cbn [print_key wf_key app] in *; try discriminate.
           apply andb_true_iff in H as [H _]. unfold wf_pline_start in H. apply andb_true_iff in H as [Hp Hi].
